@@ -270,7 +270,7 @@ func Main[C any](t *testing.T, p Prop[C]) {
 			if len(msg) > 4000 {
 				msg = msg[:4000] + "…"
 			}
-			rt.Fatalf("property %s/%s violated: %s\ncase: %s", p.ID, p.Name, msg, trunc(string(raw), 4000))
+			rt.Fatalf("property %s/%s violated: %s\ncase: %s", p.ID, p.Name, msg, trunc(string(raw), 1500))
 		}
 	})
 }
